@@ -116,6 +116,10 @@ func init() {
 		fr.i.sched.explore = a[0].(int) != 0
 		return nil
 	}
+	externals[zz+"Preemptions"] = func(fr *frame, a []value) value {
+		fr.i.sched.preemptBound = a[0].(int)
+		return nil
+	}
 	externals[zz+"RaceDetect"] = func(fr *frame, a []value) value {
 		fr.i.sched.hb = a[0].(bool)
 		return nil
@@ -156,6 +160,36 @@ func init() {
 		p.abort(OutInconclusive, "solver answered %s on Exists", res)
 		return false
 	}
+	externals[zz+"SetArgs"] = func(fr *frame, a []value) value {
+		var args []value
+		for _, x := range a[0].([]value) {
+			args = append(args, cstr(fr, x))
+		}
+		fr.i.osArgs = args
+		return nil
+	}
+	externals[zz+"SetFile"] = func(fr *frame, a []value) value {
+		if fr.i.files == nil {
+			fr.i.files = map[string]string{}
+		}
+		fr.i.files[cstr(fr, a[0])] = cstr(fr, a[1])
+		return nil
+	}
+	externals[zz+"RunMain"] = func(fr *frame, a []value) (res value) {
+		fr.i.flags = nil
+		defer func() {
+			if r := recover(); r != nil {
+				if ep, ok := r.(exitPanic); ok {
+					res = int(ep)
+					return
+				}
+				panic(r)
+			}
+		}()
+		call(fr.i, fr, 0, a[0], nil)
+		return 0
+	}
+	externals[zz+"ErrOutput"] = func(fr *frame, a []value) value { return fr.i.path.errOut.String() }
 	externals[zz+"Symbolic"] = func(fr *frame, a []value) value { return true }
 	externals[zz+"Output"] = func(fr *frame, a []value) value { return fr.i.path.out.String() }
 }
